@@ -301,3 +301,96 @@ def run_copies(ctx: Ctx) -> None:
                         return False, f"copy differs from the original: {_first_diff(before, snapshot(y))}"
                     return True, ""
                 _guard(ctx, "T19.copy", f"{name}:{'deepcopy' if deep else 'copy'}", anchor, f"class={name} {'deepcopy' if deep else 'copy'}", th)
+
+
+def run_pickle(ctx: Ctx) -> None:
+    """Pickling: DataTensor.__reduce_ex__ -> (rebuild function, args); calling it with the storage copied (as unpickling does) must
+    give back the same type, values, grids and axes — for whole tensors and for views into a larger storage."""
+    from .t15_isolation import snapshot, _first_diff
+    prog = ctx.prog
+    fR = prog.func("deepali.data.tensor", "DataTensor.__reduce_ex__")
+    fB = prog.func("deepali.data.tensor", "_rebuild_from_type")
+    ctx.fn(fR)
+    ctx.fn(fB)
+    ctx.rule("T19.pickle", "the reduce / rebuild pair used by pickle (storage, offset, size, strides, type, attribute dict): rebuilding from a "
+                           "copy of the storage yields the same type with equal values, grids and axes — for a whole batch, for single items "
+                           "batch[i] (contiguous views at a non-zero storage offset), slices batch[1:3], and a channel slice (strided view)")
+    tae._EXTERNAL_FUNCS.setdefault("torch.utils.hooks.warn_if_has_hooks", lambda *a, **k: None)
+    tae._EXTERNAL_VALUES["torch._utils._rebuild_tensor_v2"] = symt.rebuild_tensor_v2
+    tae._EXTERNAL_FUNCS["torch._utils._rebuild_tensor_v2"] = symt.rebuild_tensor_v2
+    views = [("whole batch", lambda it, b: b), ("batch[0]", lambda it, b: it.method(b, "__getitem__", 0)),
+             ("batch[2]", lambda it, b: it.method(b, "__getitem__", 2)), ("batch[1:3]", lambda it, b: it.method(b, "__getitem__", slice(1, 3))),
+             ("batch[:, 1:2]", lambda it, b: it.method(b, "__getitem__", (slice(None), slice(1, 2))))]
+    for flow in (False, True):
+        for vname, view in views:
+            if vname == "batch[:, 1:2]" and not flow:
+                continue  # images of the scenario have one channel
+
+            def th(flow=flow, vname=vname, view=view):
+                env = DEnv(ctx, flow)
+                it = env.it
+                x = view(it, env.batch)
+                if not isinstance(x, STObj):
+                    return False, f"{vname} is not an image type"
+                before = snapshot(x)
+                red = it.method(x, "__reduce_ex__", 2)
+                if not isinstance(red, tuple) or len(red) < 2:
+                    return False, "__reduce_ex__ does not return (callable, args)"
+                y = it.call_value(red[0], list(red[1]), {})
+                if not isinstance(y, STObj) or y.cls != x.cls:
+                    return False, f"unpickled {vname} is {type(y).__name__ if not isinstance(y, STObj) else y.cls.name}, expected {x.cls.name}"
+                if y.store is x.store:
+                    raise AnalysisError("pickle model: the rebuilt tensor shares the original storage")
+                if snapshot(y) != before:
+                    return False, f"unpickled {vname} differs from the original: {_first_diff(before, snapshot(y))}"
+                return env.check_result(y, f"unpickled {vname}", True)
+            _guard(ctx, "T19.pickle", f"{'FlowFields' if flow else 'ImageBatch'}:{vname}", fR, f"{'FlowFields' if flow else 'ImageBatch'} {vname}", th)
+
+
+def run_collate(ctx: Ctx) -> None:
+    """collate_samples: dataset samples holding images / flow fields are concatenated along the batch axis with their grids."""
+    prog = ctx.prog
+    fC = prog.func("deepali.data.collate", "collate_samples")
+    ctx.fn(fC)
+    ctx.rule("T19.collate", "collate_samples(samples) for a field holding Image / FlowField (one item per sample) or ImageBatch / FlowFields "
+                            "(several items per sample, distinct grids): the collated field is the batch type, its data is the samples' data "
+                            "in order, entry i carries the grid of the item whose data it holds (all of them, not one per sample), and flow "
+                            "fields keep their axes; also for a single sample")
+    tae._EXTERNAL_FUNCS["dataclasses.is_dataclass"] = lambda x: False  # (the scenario's samples are mappings)
+    tae._EXTERNAL_FUNCS["torch.utils.data.dataloader.default_collate"] = \
+        lambda xs: symt.stack([x.plain() if isinstance(x, STObj) else x for x in xs], 0) if xs and isinstance(xs[0], STensor) else list(xs)
+    for flow in (False, True):
+        for single in (True, False):
+            for nsamples in (1, 2, 3):
+                name = ("FlowField" if single else "FlowFields") if flow else ("Image" if single else "ImageBatch")
+
+                def th(flow=flow, single=single, nsamples=nsamples, name=name):
+                    env = DEnv(ctx, flow)
+                    it = env.it
+                    if single:
+                        parts = [it.method(env.batch, "__getitem__", 1), it.method(env.other, "__getitem__", 2), it.method(env.batch, "__getitem__", 0)]
+                        order = [1, env.N + 2, 0]
+                    else:
+                        parts = [it.method(env.batch, "__getitem__", slice(1, 3)), env.other, it.method(env.batch, "__getitem__", slice(0, 1))]
+                        order = [1, 2] + list(range(env.N, 2 * env.N)) + [0]
+                    parts = parts[:nsamples]
+                    n_items = sum(1 if single else p.shape[0] for p in parts)
+                    order = order[:n_items]
+                    samples = [{"x": p, "id": f"s{i}"} for i, p in enumerate(parts)]
+                    out = it.call(fC, samples)
+                    r = out["x"] if isinstance(out, dict) else it.getattr(out, "x")
+                    want_cls = env.FF if flow else env.IB
+                    if not isinstance(r, STObj) or r.cls != want_cls:
+                        return False, f"collated {name} field is {r.cls.name if isinstance(r, STObj) else type(r).__name__}, expected {want_cls.name}"
+                    if r.shape[0] != n_items:
+                        return False, f"collated batch has {r.shape[0]} entries for {n_items} items"
+                    for b, k in enumerate(order):
+                        if _items_of(r.plain(), b) != {k}:
+                            return False, f"entry {b} does not hold the data of item {k} (sample order)"
+                    ok, why = env.check_result(r, f"collate_samples of {nsamples} x {name}", True)
+                    if not ok:
+                        return False, why
+                    if out["id"] != [f"s{i}" for i in range(nsamples)]:
+                        return False, "string fields are not collected in sample order"
+                    return True, ""
+                _guard(ctx, "T19.collate", f"{name}:samples={nsamples}", fC, f"field type={name} samples={nsamples}", th)
